@@ -100,6 +100,17 @@ pub fn check(e: &Engine) {
 	);
 	e.require_label("random", "2+spawns", 0.25);
 	e.explore(
+		"real-process",
+		LegOpts::realtime(
+			e.tier.pick(96, 2_000),
+			16,
+			"3-13 controls sent by 1-3 concurrent tasks to a job supervising real processes (vhelper: plain / grouped / session, exits at once / after a delay / never on signals, may exit by itself) through process-wrap, real time: every helper takes an exclusive flock on one file per job for its whole life, so a helper that finds it held (OVERLAP record) or starts inside the recorded life span of another is a second live process. Non-trivial: two or more processes were spawned",
+		),
+		&super::realjob::seq_strategy,
+		&super::realjob::run_seq,
+	);
+	e.require_label("real-process", "2+spawns", 0.4);
+	e.explore(
 		"multi-thread",
 		LegOpts {
 			cases: e.tier.pick(200, 4_000),
